@@ -21,10 +21,11 @@ struct Spec {
   bool consumerRequests = true;
   bool producerChecksFirst = false;
   long opsPerThread = 200;
+  int rounds = 1;
   double hookP = 0;
   J json() const {
     return J().kv("consumers", consumers).kv("producers", producers).kv("requesters", requesters).kv("consumerRequests", consumerRequests)
-        .kv("producerChecksFirst", producerChecksFirst).kv("opsPerThread", opsPerThread).kv("hookP", hookP);
+        .kv("producerChecksFirst", producerChecksFirst).kv("opsPerThread", opsPerThread).kv("rounds", rounds).kv("hookP", hookP);
   }
 };
 
@@ -32,6 +33,7 @@ enum RecKind : uint8_t { kReq, kEmplace, kGet };
 struct Rec {
   uint64_t call, ret;
   long tag; // emplace: attempted tag; get: parsed tag (-1 none, -2 corrupt)
+  int round;
   uint8_t kind;
   bool ok; // emplace succeeded / get returned a value
 };
@@ -64,93 +66,28 @@ std::string dumpState() {
 }
 
 struct Obs {
-  long successes = 0, returned = 0, requests = 0, violations = 0;
+  long successes = 0, returned = 0, requests = 0, violations = 0, roundsWithUpdates = 0;
 };
 
-Obs runCase(const Spec& s, long idx) {
-  Obs o;
-  dispenso::AsyncRequest<std::string> ar;
-  const int nthreads = s.consumers + s.producers + s.requesters;
-  std::vector<std::vector<Rec>> logs(static_cast<size_t>(nthreads) + 1);
-  for (auto& l : logs) l.reserve(static_cast<size_t>(s.opsPerThread) * 2 + 4);
-  if (s.hookP > 0) {
-    vrt::hookProb(V::kAsyncGetAfterStateLoad, s.hookP);
-    vrt::hookProb(V::kAsyncEmplaceAfterCas, s.hookP);
-  }
-  g_ops = 0;
-  hs::SpinStart start(nthreads);
-  auto doGet = [&](std::vector<Rec>& log) {
-    Rec rec{};
-    rec.kind = kGet;
-    rec.call = vrt::stamp();
-    auto res = ar.getUpdate();
-    rec.ret = vrt::stamp();
-    rec.ok = static_cast<bool>(res);
-    rec.tag = rec.ok ? parsePayload(res.value()) : -1;
-    log.push_back(rec);
-  };
-  auto doReq = [&](std::vector<Rec>& log) {
-    Rec rec{};
-    rec.kind = kReq;
-    rec.call = vrt::stamp();
-    ar.requestUpdate();
-    rec.ret = vrt::stamp();
-    log.push_back(rec);
-  };
-  auto body = [&](int t) {
-    std::vector<Rec>& log = logs[static_cast<size_t>(t)];
-    vrt::Rng r = vrt::caseRng(idx, 1000 + static_cast<uint64_t>(t));
-    start.arriveAndWait();
-    for (long k = 0; k < s.opsPerThread; ++k) {
-      if (t < s.consumers) {
-        if (s.consumerRequests && r.chance(0.6)) doReq(log);
-        doGet(log);
-      } else if (t < s.consumers + s.producers) {
-        if (s.producerChecksFirst && !ar.updateRequested()) {
-          if (r.chance(0.2)) std::this_thread::yield();
-        } else {
-          Rec rec{};
-          rec.kind = kEmplace;
-          rec.tag = static_cast<long>(t) * 1000000 + k;
-          std::string p = payloadFor(rec.tag);
-          rec.call = vrt::stamp();
-          rec.ok = ar.tryEmplaceUpdate(std::move(p));
-          rec.ret = vrt::stamp();
-          log.push_back(rec);
-        }
-      } else {
-        doReq(log);
-        if (r.chance(0.3)) std::this_thread::yield();
-      }
-      g_ops.fetch_add(1, std::memory_order_relaxed);
-      vrt::progress();
-      if (r.chance(0.02)) std::this_thread::yield();
-    }
-  };
-  std::vector<std::thread> th;
-  for (int t = 0; t < nthreads; ++t) th.emplace_back(body, t);
-  for (auto& t : th) t.join();
-  vrt::hooksReset();
-  // drain what is still stored
-  doGet(logs[static_cast<size_t>(nthreads)]);
+using AR = dispenso::AsyncRequest<std::string>;
 
-  // ---- history check
+// history check of one AsyncRequest object (one round)
+void checkHistory(const std::vector<const Rec*>& recs, int round, Obs& o, long& reported) {
   std::map<long, Rec> emplaced; // successful emplaces by tag
   std::vector<Rec> gets, reqs;
-  for (auto& l : logs) {
-    for (auto& rec : l) {
-      if (rec.kind == kEmplace && rec.ok) emplaced[rec.tag] = rec;
-      else if (rec.kind == kGet && rec.ok) gets.push_back(rec);
-      else if (rec.kind == kReq) reqs.push_back(rec);
-    }
+  for (const Rec* rp : recs) {
+    const Rec& rec = *rp;
+    if (rec.kind == kEmplace && rec.ok) emplaced[rec.tag] = rec;
+    else if (rec.kind == kGet && rec.ok) gets.push_back(rec);
+    else if (rec.kind == kReq) reqs.push_back(rec);
   }
-  o.successes = static_cast<long>(emplaced.size());
-  o.returned = static_cast<long>(gets.size());
-  o.requests = static_cast<long>(reqs.size());
-  long reported = 0;
-  auto viol = [&](const std::string& msg, const J& d, const char* sub) {
+  o.successes += static_cast<long>(emplaced.size());
+  o.returned += static_cast<long>(gets.size());
+  o.requests += static_cast<long>(reqs.size());
+  if (emplaced.size() >= 2) ++o.roundsWithUpdates;
+  auto viol = [&](const std::string& msg, J d, const char* sub) {
     ++o.violations;
-    if (reported++ < 4) vrt::violation(msg, d, sub);
+    if (reported++ < 4) vrt::violation(msg, d.kv("round", round), sub);
   };
   std::map<long, Rec> consumedBy; // tag -> first get that returned it
   for (auto& g : gets) {
@@ -160,7 +97,7 @@ Obs runCase(const Spec& s, long idx) {
     }
     auto e = emplaced.find(g.tag);
     if (e == emplaced.end()) {
-      viol("getUpdate() returned a tag whose tryEmplaceUpdate() did not report success", J().kv("tag", g.tag), "bad-value");
+      viol("getUpdate() returned a tag whose tryEmplaceUpdate() did not report success on this object", J().kv("tag", g.tag), "bad-value");
       continue;
     }
     if (g.ret < e->second.call) {
@@ -170,8 +107,8 @@ Obs runCase(const Spec& s, long idx) {
       viol("one emplaced value was returned by two getUpdate() calls", J().kv("tag", g.tag), "duplicate");
     }
   }
-  if (o.successes > o.requests) {
-    viol("more successful tryEmplaceUpdate() calls than requestUpdate() calls", J().kv("successes", o.successes).kv("requests", o.requests), "unrequested");
+  if (emplaced.size() > reqs.size()) {
+    viol("more successful tryEmplaceUpdate() calls than requestUpdate() calls", J().kv("successes", emplaced.size()).kv("requests", reqs.size()), "unrequested");
   }
   // successes sorted by call; suffix minimum of ret
   std::vector<Rec> succ;
@@ -205,13 +142,102 @@ Obs runCase(const Spec& s, long idx) {
            J().kv("firstTag", si.tag).kv("secondTag", sj.tag), "unrequested");
     }
   }
+}
+
+// One case = one set of threads running `rounds` histories, each on a fresh AsyncRequest; the
+// threads meet at a relaxed spin barrier before every round so that they really overlap (thread
+// creation on a loaded machine takes longer than a whole history).
+Obs runCase(const Spec& s, long idx) {
+  Obs o;
+  const int nthreads = s.consumers + s.producers + s.requesters;
+  std::vector<std::unique_ptr<hs::AlignedBox<AR>>> ars;
+  std::vector<std::unique_ptr<hs::SpinStart>> barriers;
+  for (int r = 0; r < s.rounds; ++r) {
+    ars.emplace_back(new hs::AlignedBox<AR>());
+    barriers.emplace_back(new hs::SpinStart(nthreads));
+  }
+  std::vector<std::vector<Rec>> logs(static_cast<size_t>(nthreads) + 1);
+  for (auto& l : logs) l.reserve(static_cast<size_t>(s.opsPerThread) * 2 * static_cast<size_t>(s.rounds) + 4);
+  if (s.hookP > 0) {
+    vrt::hookProb(V::kAsyncGetAfterStateLoad, s.hookP);
+    vrt::hookProb(V::kAsyncEmplaceAfterCas, s.hookP);
+  }
+  g_ops = 0;
+  auto doGet = [&](AR& ar, int round, std::vector<Rec>& log, bool always) {
+    Rec rec{};
+    rec.kind = kGet;
+    rec.round = round;
+    rec.call = vrt::stamp();
+    auto res = ar.getUpdate();
+    rec.ret = vrt::stamp();
+    rec.ok = static_cast<bool>(res);
+    if (!rec.ok && !always) return;
+    rec.tag = rec.ok ? parsePayload(res.value()) : -1;
+    log.push_back(rec);
+  };
+  auto doReq = [&](AR& ar, int round, std::vector<Rec>& log) {
+    Rec rec{};
+    rec.kind = kReq;
+    rec.round = round;
+    rec.call = vrt::stamp();
+    ar.requestUpdate();
+    rec.ret = vrt::stamp();
+    log.push_back(rec);
+  };
+  auto body = [&](int t) {
+    std::vector<Rec>& log = logs[static_cast<size_t>(t)];
+    vrt::Rng r = vrt::caseRng(idx, 1000 + static_cast<uint64_t>(t));
+    vrt::progress();
+    for (int round = 0; round < s.rounds; ++round) {
+      AR& ar = **ars[static_cast<size_t>(round)];
+      barriers[static_cast<size_t>(round)]->arriveAndWait();
+      for (long k = 0; k < s.opsPerThread; ++k) {
+        if (t < s.consumers) {
+          if (s.consumerRequests && r.chance(0.6)) doReq(ar, round, log);
+          doGet(ar, round, log, false);
+        } else if (t < s.consumers + s.producers) {
+          if (s.producerChecksFirst && !ar.updateRequested()) {
+            // nothing to do
+          } else {
+            Rec rec{};
+            rec.kind = kEmplace;
+            rec.round = round;
+            rec.tag = static_cast<long>(round) * 100000000 + static_cast<long>(t) * 1000000 + k;
+            std::string p = payloadFor(rec.tag);
+            rec.call = vrt::stamp();
+            rec.ok = ar.tryEmplaceUpdate(std::move(p));
+            rec.ret = vrt::stamp();
+            if (rec.ok) log.push_back(rec);
+          }
+        } else {
+          doReq(ar, round, log);
+        }
+        if (r.chance(0.01)) std::this_thread::yield();
+      }
+      g_ops.fetch_add(s.opsPerThread, std::memory_order_relaxed);
+      vrt::progress();
+    }
+  };
+  std::vector<std::thread> th;
+  for (int t = 0; t < nthreads; ++t) th.emplace_back(body, t);
+  for (auto& t : th) t.join();
+  vrt::hooksReset();
+  // drain what is still stored
+  for (int round = 0; round < s.rounds; ++round) doGet(**ars[static_cast<size_t>(round)], round, logs[static_cast<size_t>(nthreads)], false);
+
+  long reported = 0;
+  std::vector<std::vector<const Rec*>> byRound(static_cast<size_t>(s.rounds));
+  for (auto& l : logs) {
+    for (auto& rec : l) byRound[static_cast<size_t>(rec.round)].push_back(&rec);
+  }
+  for (int round = 0; round < s.rounds; ++round) checkHistory(byRound[static_cast<size_t>(round)], round, o, reported);
   return o;
 }
 
 } // namespace
 
 void runC24() {
-  const long n = vrt::g_args.getInt("n", vrt::thorough() ? 6000 : 400);
+  const long n = vrt::g_args.getInt("n", vrt::thorough() ? 3000 : 160);
   vrt::setStateDumper(dumpState);
   for (long idx = 0; idx < n; ++idx) {
     if (!vrt::selected(idx)) continue;
@@ -223,8 +249,8 @@ void runC24() {
     s.requesters = static_cast<int>(r.below(3));
     s.consumerRequests = s.requesters == 0 || r.chance(0.5);
     s.producerChecksFirst = r.chance(0.5);
-    long total = vrt::g_args.getInt("ops", vrt::thorough() ? 10000 : 3000);
-    s.opsPerThread = std::max<long>(20, r.range(total / 10, total) / (s.consumers + s.producers + s.requesters));
+    s.rounds = static_cast<int>(r.range(4, vrt::g_args.getInt("rounds", vrt::thorough() ? 40 : 16)));
+    s.opsPerThread = r.range(50, vrt::g_args.getInt("ops", vrt::thorough() ? 2000 : 600));
     if (r.chance(0.5)) s.hookP = r.pick(std::vector<double>{0.02, 0.1, 0.5});
     std::string key = std::string(s.consumers == 1 ? "one-consumer" : "multi-consumer") + "/" + (s.producers == 1 ? "one-producer" : "multi-producer") + "/" +
         (s.requesters == 0 ? "consumer-requests" : (s.consumerRequests ? "mixed-requesters" : "separate-requesters"));
@@ -237,8 +263,8 @@ void runC24() {
     cls.push_back(s.producers == 1 ? "one-producer" : "multi-producer");
     cls.push_back(s.requesters == 0 ? "consumer-requests" : "separate-requesters");
     if (s.hookP > 0) cls.push_back("perturbed");
-    if (o.successes >= 10) cls.push_back("many-updates");
+    if (o.successes >= 20) cls.push_back("many-updates");
     bool nt = o.successes >= 2 && o.returned >= 2;
-    vrt::caseEnd(J().kv("successes", o.successes).kv("returned", o.returned).kv("requests", o.requests).kv("violations", o.violations), nt ? s.json().str() : "", cls);
+    vrt::caseEnd(J().kv("roundsWithUpdates", o.roundsWithUpdates).kv("successes", o.successes).kv("returned", o.returned).kv("requests", o.requests).kv("violations", o.violations), nt ? s.json().str() : "", cls);
   }
 }
